@@ -6,7 +6,7 @@ import SV.TxCache.SelProofs
 import SV.TxCache.OrderProofs
 import SV.TxCache.EvictInv
 import SV.TxCache.ReachableProofs
-import SV.GenProofs
+import SV.GenProofs.TxSelection
 namespace SV.Props.C01
 open SV SV.TxCache
 
